@@ -82,6 +82,12 @@ func validateProve(prove vrf.VRFProve, height, workingMiners, totalStake uint64)
 	if 0 != workingMiners && height > common.LocalChainConfig.Proposal025Block+common.GetRewardBlocks() {
 		difficulty = totalStake / workingMiners
 		stdLogger.Infof("change difficulty, %d, %d, %d", totalStake, workingMiners, difficulty)
+		if difficulty == 0 {
+			// more working miners than stake: the threshold is 0, nobody qualifies; calQn would
+			// divide by a zero step
+			stdLogger.Errorf("difficulty is 0: total stake %d, working miners %d", totalStake, workingMiners)
+			return false, 0
+		}
 	} else {
 		stdLogger.Infof("no need to change difficulty, %d, %d, %d", totalStake, workingMiners, difficulty)
 	}
